@@ -169,20 +169,43 @@ def gen_local_study(rng, shape=None, scenario=None, cancel=None, nmax=6):
                 codes = [0 if rng.random() < 0.45 else fail_code(rng) for _ in range(attempts)]
             variants.append(codes)
         steps.append({"name": names[i], "deps": deps, "use": use, "codes": variants,
-                      "restart": rng.random() < 0.15, "cancel": False})
+                      "restart": rng.random() < 0.15, "cancel": False,
+                      "shape": sorted(rng.sample(range(len(SNIPPETS)), rng.choice([0, 1, 2, 3]))),
+                      "end": rng.choice(ENDINGS)})
     if cancel is None:
         cancel = False
     if cancel == "step" and steps:
         steps[rng.randrange(len(steps))]["cancel"] = True
     return {"shape": shape, "scenario": scenario, "steps": steps, "params": params, "attempts": attempts,
             "throttle": rng.choice([0, 0, 0, 1, 2, 3]), "rlimit": rng.choice([0, 1, 2]),
+            "hashws": rng.random() < 0.4, "usetmp": rng.random() < 0.25,
             "cancel": cancel or "no"}
+
+
+# command SHAPES: (script lines, what they print).  Harmless, but full of the shell syntax a
+# script writer / substitution pass can trip over.
+SNIPPETS = [
+    (['V=val; echo "brace ${V} $V"'], "brace val val\n"),
+    (['for i in {1..3}; do echo -n $i; done; echo'], "123\n"),
+    (['echo "a b" | awk \'{print $2}\''], "b\n"),
+    (['(cd /; echo sub); { echo grp; }'], "sub\ngrp\n"),
+    (['true && echo and || echo or'], "and\n"),
+    (['false || echo or'], "or\n"),
+    (['echo x 2>&1 | cat'], "x\n"),
+    (["echo 'single \"q\"' \"double 'q'\"   # a trailing comment"], "single \"q\" double 'q'\n"),
+    (['echo multi \\', '  line'], "multi line\n"),
+    (['(echo bg > /dev/null) &', 'wait $!; echo waited'], "waited\n"),
+    (['A=(p q r); echo "${#A[@]} ${A[1]}"'], "3 q\n"),
+    (['printf "%s;%s\\n" semi colon; :'], "semi;colon\n"),
+]
+ENDINGS = ["exit", "exit", "lastcmd", "false", "lastcmd-comment"]
 
 
 def step_cmd(st, d):
     mark, cnt, out = os.path.join(d, "marks.log"), os.path.join(d, "cnt"), os.path.join(d, "out")
     table = " ".join('"%s"' % " ".join(str(c) for c in v) for v in st["codes"])
     uses = "".join(" %s=$(%s)" % (k, k) for k in st["use"])
+    end = st.get("end", "exit")
     lines = [
         "k=`pwd | tr '/' '_'`",
         "n=$(( `cat %s/$k 2>/dev/null || echo 0` + 1 ))" % cnt,
@@ -190,6 +213,10 @@ def step_cmd(st, d):
         'echo "S %s $n $$ `pwd`" >> %s' % (st["name"], mark),
         'echo "out %s $n%s"' % (st["name"], uses),
         'echo "err %s $n" >&2' % st["name"],
+    ]
+    for k in st.get("shape", []):
+        lines += SNIPPETS[k][0]
+    lines += [
         "T=(%s)" % table,
         "v=$(( `printf %%s \"$k\" | cksum | cut -d' ' -f1` %% %d ))" % len(st["codes"]),
         "row=(${T[$v]})",
@@ -200,8 +227,19 @@ def step_cmd(st, d):
     lines += ['case "$c" in',
               '  T) echo "E %s $n $$ -15" >> %s; kill -TERM $$; sleep 5;;' % (st["name"], mark),
               '  K) echo "E %s $n $$ -9" >> %s; kill -KILL $$; sleep 5;;' % (st["name"], mark),
-              'esac',
-              'echo "E %s $n $$ $c" >> %s' % (st["name"], mark), "exit $c"]
+              'esac']
+    if end == "false":
+        # fails through the command `false` (status 1), no exit statement
+        lines += ['r=$c; if [ "$c" != 0 ]; then r=1; fi',
+                  'echo "E %s $n $$ $r" >> %s' % (st["name"], mark),
+                  'if [ "$c" != 0 ]; then false; fi']
+    elif end.startswith("lastcmd"):
+        # fails because its LAST COMMAND fails, no exit statement
+        lines += ['echo "E %s $n $$ $c" >> %s' % (st["name"], mark), '(exit $c)']
+        if end == "lastcmd-comment":
+            lines += ['# the status of the script is the status of the command above']
+    else:
+        lines += ['echo "E %s $n $$ $c" >> %s' % (st["name"], mark), "exit $c"]
     return "\n".join(lines) + "\n"
 
 
@@ -226,6 +264,10 @@ def spec_text(case, d):
 # ----------------------------------------------------------------------------
 # running one study and observing it from the outside
 # ----------------------------------------------------------------------------
+def flag_args(case):
+    return (["--hashws"] if case.get("hashws") else []) + (["--usetmp"] if case.get("usetmp") else [])
+
+
 def run_study_case(job):
     """job = (case, dir, mode); mode 'fg' = `maestro run -fg -y`, 'conductor' =
     `maestro run -n` (store only) then the `conductor` entry point on the
@@ -240,7 +282,7 @@ def run_study_case(job):
            "E2E_STUDY_DIR": out, "E2E_SNAP_DIR": os.path.join(d, "snap"), "E2E_MAX_POLLS": "80"}
     log = os.path.join(d, "run.log")
     common_args = ["-s", POLL_SLEEP, "--attempts", case["attempts"], "--rlimit", case["rlimit"],
-                   "--throttle", case["throttle"], "-o", out, "spec.yaml"]
+                   "--throttle", case["throttle"]] + flag_args(case) + ["-o", out, "spec.yaml"]
     res = {"mode": mode, "pre": []}
     if mode == "fg":
         rc, tail = launch("maestro", ["run", "-fg", "-y"] + common_args, d, env, logfile=log)
@@ -376,6 +418,10 @@ def translate(case, o):
     """-> (ecase dict for H.g_case or None, clause violations [str], problems [str])."""
     viol, prob = [], []
     if "problem" in o:
+        if o.get("rc") not in STATUS_OF_RC:
+            # the command line itself failed on a legal study: no verdict, nothing to translate
+            return None, ["`maestro run`/`conductor` exited %r (no study verdict) on a legal study (flags:%s); output tail: %s"
+                          % (o.get("rc"), " ".join(flag_args(case)) or " none", o.get("tail", "")[-700:])], []
         return None, viol, [o["problem"]]
     inst = o["inst"]
     n = len(inst)
@@ -462,6 +508,7 @@ def translate(case, o):
             st = by_step.get(e["step"])
             exp_out = "out %s %d%s\n" % (e["step"], e["n"], "".join(
                 " %s=%s" % (kk, inst[x]["params"].get(kk, "<missing>")) for kk in (st["use"] if st else [])))
+            exp_out += "".join(SNIPPETS[k][1] for k in (st.get("shape", []) if st else []))
             exp_err = "err %s %d\n" % (e["step"], e["n"])
             for ext, exp in ((".out", exp_out), (".err", exp_err)):
                 got = [p for p in o["files"] if os.path.dirname(p) == inst[x]["ws"] and p.endswith(".%d%s" % (e["pid"], ext))]
@@ -512,6 +559,10 @@ def translate(case, o):
             for y in descendants(inst, x):
                 if final[y][0] != "FAILED":
                     viol.append("instance %s depends on the failed %s but is %s" % (inst[y]["name"], nd["name"], final[y][0]))
+    if o["rc"] in (99, 124):
+        viol.append("the study did not terminate: stopped by the harness after %d polls for %d instances (flags:%s)"
+                    % (len(o["marks"]), len(inst), " ".join(flag_args(case)) or " none"))
+        return None, viol, prob
     if o["rc"] not in STATUS_OF_RC:
         viol.append("process exit code %r is not a study verdict (0 FINISHED / 2 FAILURE / 3 CANCELLED); output tail: %s"
                     % (o["rc"], o.get("tail", "")[-600:]))
@@ -564,6 +615,7 @@ def evaluate(ck, tag, items, keep_dirs=False):
     `ck`.  Returns per-item summaries (for coverage)."""
     results = pmap(run_study_case, [(it["case"], it["dir"], it["mode"]) for it in items])
     lits, lit_ix, summaries = [], [], []
+    coq_tag, tag = tag, tag.split("_p")[0]
     for it, res in zip(items, results):
         case = it["case"]
         rec = {"case": case, "mode": it["mode"]}
@@ -592,23 +644,23 @@ def evaluate(ck, tag, items, keep_dirs=False):
         summaries.append(rec)
         if not keep_dirs:
             shutil.rmtree(it["dir"], ignore_errors=True)
-    bad, errs = common.coq_failing(tag, HEADER, "ecase", "e2e_ok", lits)
+    bad, errs = common.coq_failing(coq_tag, HEADER, "ecase", "e2e_ok", lits)
     for e in errs:
         ck.mismatch("coqc failed on the %s cases file" % tag, None, e[1])
     if bad:
         sub = [lits[i] for i in bad]
-        b_mon, _ = common.coq_failing(tag + "_m", HEADER, "ecase",
+        b_mon, _ = common.coq_failing(coq_tag + "_m", HEADER, "ecase",
                                       "(fun e => impl_ok 19 e && impl_ok 1 e && impl_ok 5 e && e2e_mon e)", sub)
         for k, i in enumerate(bad):
             rec = summaries[lit_ix[i]]
             if rec["violations"]:
                 continue                     # already reported as a violation
             if k in b_mon:
-                codes = common.coq_eval(tag + "_e", HEADER, "impl_viol (%s)" % lits[i])
+                codes = common.coq_eval(coq_tag + "_e", HEADER, "impl_viol (%s)" % lits[i])
                 ck.violation("%s [%s]: trace monitor codes on the implementation's observations: %s"
                              % (tag, rec["mode"], " ".join(codes.split())[-200:]), slim(rec))
             else:
-                mo = common.coq_eval(tag + "_e", HEADER, "map e2e_vis (model_obs (%s))" % lits[i])
+                mo = common.coq_eval(coq_tag + "_e", HEADER, "map e2e_vis (model_obs (%s))" % lits[i])
                 ck.mismatch("%s [%s]: model and implementation observations differ" % (tag, rec["mode"]),
                             slim(rec), mo[-3000:])
     return summaries
@@ -628,6 +680,11 @@ def distribution(summaries):
         dist["scenario:" + c["scenario"]] += 1
         dist["attempts:%d" % c["attempts"]] += 1
         dist["throttle:%d" % c["throttle"]] += 1
+        dist["flags:%s" % (" ".join(flag_args(c)) or "none")] += 1
+        for st_ in c["steps"]:
+            if "end" in st_:
+                dist["end:" + st_["end"]] += 1
+                dist["shape_snippets"] += len(st_.get("shape", []))
         dist["params:%d" % len(c["params"])] += 1
         dist["rows:%d" % (len(c["params"][0]["values"]) if c["params"] else 0)] += 1
         dist["instances:%02d" % min(r["instances"], 20)] += 1
@@ -640,7 +697,7 @@ def distribution(summaries):
 
 
 def case_key(case, mode=""):
-    return json.dumps([case["steps"], case["params"], case["attempts"], case["throttle"], mode], sort_keys=True)
+    return json.dumps([case["steps"], case["params"], case["attempts"], case["throttle"], flag_args(case), mode], sort_keys=True)
 
 
 # ----------------------------------------------------------------------------
@@ -745,8 +802,14 @@ def gen_scripted_study(rng, shape=None, cancel=False, qfault=False):
     if qfault:
         qcodes = [rng.choice(["OK", "OK", "NOJOBS"]) for _ in range(rng.randint(1, 4))] + \
                  [rng.choice(["ERROR", "NOJOBS", "OK"]), "OK"]
-    return {"kind": "scripted", "shape": shape, "scenario": "scripted", "steps": steps, "params": [],
+    params = []
+    if rng.random() < 0.5:                           # parameterised: two instances per (using) step
+        params = [{"key": "P", "values": rng.sample([1, 2, 3, "lo", "hi"], 2)}]
+        for st in steps:
+            st["use"] = ["P"] if rng.random() < 0.7 else []
+    return {"kind": "scripted", "shape": shape, "scenario": "scripted", "steps": steps, "params": params,
             "attempts": rng.choice([1, 2, 3]), "throttle": rng.choice([0, 0, 1, 2]), "rlimit": rlimit,
+            "hashws": bool(params) and rng.random() < 0.6, "usetmp": rng.random() < 0.3,
             "qcodes": qcodes, "cancel": "step" if cancel else "no"}
 
 
@@ -759,10 +822,10 @@ def scripted_spec(case, d):
         if st["scheduled"]:
             run = {"cmd": "echo scheduled-%s%s\n" % (st["name"], uses), "procs": 1}
         else:
-            lines = []
+            lines = ["echo local-%s%s" % (st["name"], uses)]
             if st.get("cancel"):
                 lines.append("touch %s/.cancel.lock" % out)
-            lines.append("echo '{\"call\": \"local\", \"inst\": \"%s\", \"pid\": '$$', \"code\": %d, \"lock\": %s}' >> %s"
+            lines.append("echo '{\"call\": \"local\", \"inst\": \"%s\", \"cwd\": \"'`pwd`'\", \"pid\": '$$', \"code\": %d, \"lock\": %s}' >> %s"
                          % (st["name"], st["code"], "true" if st.get("cancel") else "false", alog))
             lines.append("exit %d" % st["code"])
             run = {"cmd": "\n".join(lines) + "\n"}
@@ -795,8 +858,8 @@ def run_scripted_case(job):
     env = {"E2E_MARK_LOG": os.path.join(d, "marks.log"), "E2E_POLL_SLEEP": str(POLL_SLEEP), "E2E_STUDY_DIR": out,
            "E2E_SNAP_DIR": os.path.join(d, "snap"), "E2E_MAX_POLLS": "120", "E2E_SCRIPTED": os.path.join(d, "script.json")}
     log = os.path.join(d, "run.log")
-    args = ["-s", POLL_SLEEP, "--attempts", case["attempts"], "--rlimit", case["rlimit"], "--throttle", case["throttle"],
-            "-o", out, "spec.yaml"]
+    args = ["-s", POLL_SLEEP, "--attempts", case["attempts"], "--rlimit", case["rlimit"], "--throttle", case["throttle"]] + \
+        flag_args(case) + ["-o", out, "spec.yaml"]
     res = {"mode": mode, "pre": []}
     if mode == "fg":
         rc, tail = launch("maestro", ["run", "-fg", "-y"] + args, d, env, logfile=log)
@@ -805,6 +868,27 @@ def run_scripted_case(job):
         res["pre"].append(["maestro run -n", rc0])
         rc, tail = (rc0, tail0) if rc0 != 0 else launch("conductor", ["-t", POLL_SLEEP, out], d, env, logfile=log)
     res["rc"], res["tail"] = rc, tail[-1500:]
+    return res
+
+
+def resolver(inst):
+    """adapter-log entry -> index of the instance it concerns, by directory: the workspace
+    (`cwd` of submit / local entries, `dir` of write_script) or <tmp>/md5(instance name) with
+    --usetmp.  Under --hashws the step's own name is shared by several instances."""
+    from hashlib import md5
+    by_ws = {nd["ws"]: i for i, nd in enumerate(inst)}
+    by_md5 = {md5(nd["name"].encode("utf-8")).hexdigest(): i for i, nd in enumerate(inst)}
+    by_name = {nd["name"]: i for i, nd in enumerate(inst)}
+
+    def res(e):
+        d = e.get("cwd") or e.get("dir")
+        if d:
+            d = os.path.realpath(d)
+            if d in by_ws:
+                return by_ws[d]
+            if os.path.basename(d) in by_md5:
+                return by_md5[os.path.basename(d)]
+        return by_name.get(e.get("inst"))
     return res
 
 
@@ -832,6 +916,7 @@ def translate_scripted(case, d, res):
         return None, ["no snapshot at all (rc=%s): %s" % (res["rc"], res.get("tail", "")[-400:])]
     inst = graphs[0]
     ix = {nd["name"]: i for i, nd in enumerate(inst)}
+    res_ = resolver(inst)
     def template(name):
         c = [s for s in case["steps"] if name == s["name"] or name.startswith(s["name"] + "_")]
         return max(c, key=lambda s: len(s["name"])) if c else None
@@ -865,9 +950,9 @@ def translate_scripted(case, d, res):
         if cur is None:
             prob.append("adapter call %s before the first status query" % c)
             continue
-        x = ix.get(e["inst"])
+        x = res_(e)
         if x is None:
-            prob.append("adapter call for unknown instance %s" % e["inst"])
+            prob.append("adapter call for unknown instance %s (%s)" % (e["inst"], e.get("cwd") or e.get("dir")))
             continue
         if c == "write_script":
             cur["events"].append(["gen", x])
@@ -931,6 +1016,17 @@ def evaluate_scripted(ck, tag, items, pidnum=5, clause=None):
                "attempts_run": sum(1 for p in (ecase["polls"] if ecase else []) for e in p["events"] if e[0] == "submit"),
                "impl": None if ecase is None else ecase["polls"]}
         summ.append(rec)
+        flags = " ".join(flag_args(it["case"])) or "none"
+        if res["rc"] in (99, 124):
+            rec["violations"] = ["the study did not terminate: stopped by the harness after its poll budget (flags: %s, -t %s -a %s -r %s)"
+                                 % (flags, it["case"]["throttle"], it["case"]["attempts"], it["case"]["rlimit"])]
+        elif res["rc"] not in STATUS_OF_RC and "ERROR" not in it["case"].get("qcodes", []):
+            rec["violations"] = ["`maestro run`/`conductor` exited %r (no study verdict) on a legal study (flags: %s); output tail: %s"
+                                 % (res["rc"], flags, res.get("tail", "")[-600:])]
+        if rec["violations"]:
+            ck.violation("%s [%s]: %s" % (tag.split("_p")[0], it["mode"], rec["violations"][0]), slim(rec))
+            prob = []
+            ecase = None
         if clause is not None and ecase is not None and not prob:
             rec["violations"] = clause(it["case"], ecase)
             for v in rec["violations"][:1]:
@@ -1003,7 +1099,8 @@ def gen_config_study(rng, focus):
             steps[0]["restart"] = True
     return {"kind": "scripted", "focus": focus, "shape": "templates:%d" % ntempl, "scenario": "config-" + focus,
             "steps": steps, "params": [{"key": "P", "values": values}], "attempts": rng.choice([1, 2, 3]),
-            "throttle": T, "rlimit": R, "qcodes": ["OK"], "cancel": "no"}
+            "throttle": T, "rlimit": R, "hashws": rng.random() < 0.5, "usetmp": rng.random() < 0.3,
+            "qcodes": ["OK"], "cancel": "no"}
 
 
 def config_cases(rng, n, focus):
